@@ -12,6 +12,7 @@
 From Coq Require Import ZArith List Bool.
 From CSS Require Import Base.Sx Forest.Spec Forest.Model Forest.Run Spec.Extractor.
 From CSS Require Spec.GroupingRun Spec.FindRuleRun.
+From CSS Require Searcher.Run Searcher.DecidersRun.
 Import ListNotations.
 Open Scope Z_scope.
 
@@ -62,10 +63,22 @@ Definition run_pumps (a : sx) : sx :=
      2  SpecificationRuleExtractor._find_rule / rules()     Spec/FindRuleRun.v
      3  CombinatorialSpecification.__init__                 Spec/GroupingRun.v
      4  the same constructor on the rules in reverse order (the result does not depend on the order)
-     5  the same constructor on the rules with one rule left out (a rule set that is not closed) *)
+     5  the same constructor on the rules with one rule left out (a rule set that is not closed)
+   output field 6 (added later, compatible): the verdict of the deciders of Searcher/Deciders.v (the table hypotheses
+     of C02_search_find_rule_total) on the table field 2 carries - its empty bits, strategies and nocap, the SAME
+     fields run_findrule reads - completed by an 11th element of field 2 = ( ver-sids sym-sids queue-pack packets )
+     (Searcher/DecidersRun.v); () when field 2 is empty or has no such element *)
+Definition run_findrule_hyps (a : sx) : sx :=
+  match sx_list a with
+  | [] => L []
+  | _ => Searcher.DecidersRun.run_hyps (sx_Zs (sx_nth a 1)) (map Searcher.Run.dec_strat (sx_list (sx_nth a 2)))
+           (sx_Zs (sx_nth a 9)) (sx_nth a 10)
+  end.
+
 Definition run_c02 (inp : sx) : sx :=
   L [run_extractor (sx_nth inp 0); run_pumps (sx_nth inp 1);
      Spec.FindRuleRun.run_findrule (sx_nth inp 2);
      Spec.GroupingRun.run_spec (sx_nth inp 3);
      Spec.GroupingRun.run_spec (sx_nth inp 4);
-     Spec.GroupingRun.run_spec (sx_nth inp 5)].
+     Spec.GroupingRun.run_spec (sx_nth inp 5);
+     run_findrule_hyps (sx_nth inp 2)].
